@@ -173,4 +173,57 @@ Fixpoint gl_nest (levs : list gl_lev) (core : list T -> res T) (xs : list T) : r
   | [] => core xs
   | l :: rest => gl_levelM (fst (fst l)) (snd (fst l)) (fst (snd l)) (snd (snd l)) (fun x => gl_nest rest core (xs ++ [x]))
   end.
+
+(** ** Integrands that throw.  A C++ integrand may leave by an exception; the library has no handler of its own, so the
+    exception passes through every library frame (the local value vector is destroyed, no other state exists) up to the
+    first handler, which may sit inside the integrand of an enclosing integration: that integrand then continues with a
+    substitute value and the enclosing integration goes on.  An evaluation is [Ok (Some v)] (returned v), [Ok None]
+    (an exception propagates) or a process-ending outcome. *)
+Definition xlift {A : Type} (r : res A) : res (option A) := rbind r (fun a => Ok (Some a)).
+
+Fixpoint mapX {A B : Type} (f : A -> res (option B)) (l : list A) : res (option (list B)) :=
+  match l with
+  | [] => Ok (Some [])
+  | a :: l' =>
+      rbind (f a) (fun ob =>
+        match ob with
+        | None => Ok None
+        | Some b => rbind (mapX f l') (fun obs => match obs with None => Ok None | Some bs => Ok (Some (b :: bs)) end)
+        end)
+  end.
+
+(** the value overload applied to the collected values, unless the collection was left by an exception *)
+Definition gl_valuesX (ov : option (list T)) (rw : list (list T)) : res (option T) :=
+  match ov with None => Ok None | Some vals => xlift (gl_integrate_values vals rw) end.
+
+(** Integrate_Gauss_Legendre(func, roots_and_weights) with an integrand that may throw *)
+Definition gl_integrate_funX (f : T -> res (option T)) (rw : list (list T)) : res (option T) :=
+  rbind (mapX (fun r => match r with [] => OOB | x :: _ => f x end) rw) (fun ov => gl_valuesX ov rw).
+
+(** try { v = <call>; } catch(...) { v = fallback; } around one call ([None]: no handler) *)
+Definition gl_handle (h : option T) (r : res (option T)) : res (option T) :=
+  match h, r with
+  | Some fb, Ok None => Ok (Some fb)
+  | _, _ => r
+  end.
+
+Definition gl_levelX (k : gl_kind) (n : nat) (a b : T) (h : option T) (f : T -> res (option T)) : res (option T) :=
+  gl_handle h
+    match k with
+    | KInt => rbind (gl_rule n a b) (fun rw => gl_integrate_funX f rw)
+    | KFun => rbind (gl_rule n a b) (fun rw => gl_integrate_funX f rw)
+    | KVal => rbind (gl_rule n a b) (fun rw => rbind (mapX (fun r => f (nth0 Ops r 0)) rw) (fun ov => gl_valuesX ov rw))
+    | KDef => rbind (gl_rule 30 a b) (fun rw => gl_integrate_funX f rw)
+    end.
+
+(** a nested integration whose levels may carry a handler: the call of level j is made, inside the integrand of level
+    j-1, under the handler of level j *)
+Definition gl_levX : Type := gl_lev * option T.
+Fixpoint gl_nestX (levs : list gl_levX) (core : list T -> res (option T)) (xs : list T) : res (option T) :=
+  match levs with
+  | [] => core xs
+  | l :: rest =>
+      gl_levelX (fst (fst (fst l))) (snd (fst (fst l))) (fst (snd (fst l))) (snd (snd (fst l))) (snd l)
+        (fun x => gl_nestX rest core (xs ++ [x]))
+  end.
 End GL.
